@@ -35,6 +35,10 @@ theorem gcd_skeleton_kernel_is_c12 (W : Nat) (hW : 0 < W) (lhs rhs : Nat) (h : r
 example : lehmerGcdSw 64 ((2 ^ 64 + 1) * (2 ^ 250 + 12345)) ((2 ^ 64 + 1) * (2 ^ 200 + 7)) = .ok (2 ^ 64 + 1, false) := by
   decide +kernel
 
+-- `rhs` divides `lhs`: one Euclidean step leaves the gcd in the copy of `rhs` (`swapped = true`)
+example : lehmerGcdSw 64 (3 * (2 ^ 200 + 1)) (2 ^ 200 + 1) = .ok (2 ^ 200 + 1, true) := by decide +kernel
+example := gcd_skeleton_kernel_is_c12 64 (by decide) (3 * (2 ^ 200 + 1)) (2 ^ 200 + 1) (by decide)
+
 open Dashu.Model.Text in
 /-- per-byte conversion of a raw digit `< 36` is a 7-bit ASCII byte (at most `'z'` = 122) -/
 theorem rawToAscii_ascii (c : DigitCase) (d : Nat) (hd : d < 36) : 48 ≤ rawToAscii c d ∧ rawToAscii c d < 128 := by
